@@ -433,6 +433,7 @@ type OCSPSpec struct {
 	ResponderIDOf *x509.Certificate // certificate whose subject is put into the ResponderID (default: the signer's)
 	CorruptSig bool
 	RevokedAt  *time.Time // revocation time of a Revoked answer (default: an hour before thisUpdate)
+	Reason     int        // revocation reason of a Revoked answer (0: keyCompromise, the default; -1: unspecified(0))
 }
 
 func buildOCSP(issuer *Issued, spec OCSPSpec) []byte {
@@ -443,6 +444,11 @@ func buildOCSP(issuer *Issued, spec OCSPSpec) []byte {
 			tmpl.RevokedAt = *spec.RevokedAt
 		}
 		tmpl.RevocationReason = ocsp.KeyCompromise
+		if spec.Reason > 0 {
+			tmpl.RevocationReason = spec.Reason
+		} else if spec.Reason < 0 {
+			tmpl.RevocationReason = ocsp.Unspecified
+		}
 	}
 	if spec.InvDate != nil {
 		v := mustMarshal(spec.InvDate.UTC(), "generalized")
